@@ -43,7 +43,7 @@ CHECKS = {
         category="other",
         text="Panic discipline decided statically: the three documented panics are exact (single guard, documented message, other path writes); no explicit "
              "panic and no unwrap of a run-time Result is reachable from build(); the two bounds guards dominate their sites; an inventory of the remaining "
-             "panic-capable sites is evidence only; the automaton's graph index type is at least 32 bits wide (PAN-6); no overflow-checked arithmetic on a threshold setting (PAN-7); escaping descends into nested repetitions on every path (ESC-3). That the printed pattern is accepted by the regex crate is not decided.",
+             "panic-capable sites is evidence only; the automaton's graph index type is at least 32 bits wide (PAN-6); no overflow-checked arithmetic on a threshold setting (PAN-7); escaping descends into nested repetitions on every path (ESC-3), the printer uses a grapheme's own text only where it was escaped (ESC-4), the literal printer escapes on every path (ESCP-2) and verbose mode rewrites every ignored character also inside bracket classes (VWS-1/2). That the printed pattern is accepted by the regex crate is not decided.",
         design_ref="DESIGN.md §4 C07",
         note=TRUST + "Option::unwrap/indexing/arithmetic sites reachable from build() are enumerated, not proven unreachable.",
         technique="static analysis: call-graph reachability, constant propagation on the documented panics, dominator-based guard rules",
@@ -72,7 +72,7 @@ CHECKS = {
         text="Wiring decided exactly: each of the 17 setter calls is control dependent on the Cli field of its documented flag (pre-expansion attributes), "
              "threshold/surrogate values come from their own flags, stdout receives build()'s value plus newline, exit 1 only after stderr; the three "
              "line channels use lines() with identity maps; the zero-rejecting value parser guards both thresholds; no panic-on-unusable-input construct "
-             "is reachable from main; the text of a channel is not rewritten before it is split (CLI-3 producer side); the only clap relations between arguments are the documented ones (CLI-6).",
+             "is reachable from main; the text of a channel is not rewritten before it is split (CLI-3 producer side); the only clap relations between arguments are the documented ones (CLI-6); every used producer of the settings yields the documented defaults, so from_file starts like from (DEF-1).",
         design_ref="DESIGN.md §4 C12",
         note=TRUST + "clap's own parsing and the operating system's delivery of stdout/stderr are trusted; actual process output is not observed.",
         technique="static analysis: control dependence against pre-expansion clap attributes, origin trees of printed values, constant propagation of the value parser",
@@ -81,7 +81,7 @@ CHECKS = {
         category="other",
         text="Necessary conditions only: finality is transferred per state when the automaton is rebuilt and every inserted test case marks its last "
              "state final; every regex metacharacter (oracle: regex_syntax::is_meta_character of the locked version) is escaped per occurrence in literals "
-             "and in bracket classes; the single-code-point test that licenses bracket classes and group omission counts chars and measures every unit (CNT-1/2); the partition refinement has the shape of Hopcroft's algorithm and runs to the fixpoint (MIN-1..6); reader and remover of common prefixes/suffixes agree on positions (SUB-1); the union's necessary conditions hold (UNI-1..4: class merge only for single code points, `x?` from the non-empty side, prefix/suffix re-attached on the right side, an alternative dropped only when absent, equal or included per a verified class table); the first char of a grapheme stands for it only under a single-code-point test (FCH-1); edge labels are identified by their entries, not their joined text (LBL-1/2), escaping reaches every entry and every nesting level on every path (ESC-2/3). Breaking any of them makes some test case unmatched or the pattern invalid. That minimisation, elimination and "
+             "and in bracket classes; the single-code-point test that licenses bracket classes and group omission counts chars and measures every unit (CNT-1/2); the partition refinement has the shape of Hopcroft's algorithm and runs to the fixpoint (MIN-1..6); reader and remover of common prefixes/suffixes agree on positions (SUB-1); the union's necessary conditions hold (UNI-1..4: class merge only for single code points, `x?` from the non-empty side, prefix/suffix re-attached on the right side, an alternative dropped only when absent, equal or included per a verified class table); the first char of a grapheme stands for it only under a single-code-point test (FCH-1); a grapheme's own text is printed only where it was escaped and the literal printer escapes on every path (ESC-4, ESCP-2); under (?x) every ignored character is rewritten in literals and in bracket classes (VWS-1/2); class tokens are substituted only per tables equal to the engine's (TAB-1/2, CLS-1); edge labels are identified by their entries, not their joined text (LBL-1/2), escaping reaches every entry and every nesting level on every path (ESC-2/3). Breaking any of them makes some test case unmatched or the pattern invalid. That minimisation, elimination and "
              "printing preserve membership is not decided.",
         design_ref="DESIGN.md §4 C01",
         note=TRUST + "One genuine defect is recorded as a known finding (empty string loses finality: FIN-1) because its repair contradicts three pinned tests.",
@@ -90,7 +90,7 @@ CHECKS = {
     "C05": dict(
         category="other",
         text="Notation clauses decided by constant propagation over the quantifier printer on all abstract paths ({min,max} iff min<max, {min} iff min>1, group "
-             "only around quantified multi-code-point units, decision not taken on the printed form; an operand under a quantifier keeps its outer group: PRC-2; entries of a grapheme are only mapped element-wise: CHR-1; escaping descends as deep as the printer: ESC-3; no memo table with a lossy key: MEMO-1), the label guard of the minimiser, and trie-edge "
+             "only around quantified multi-code-point units, decision not taken on the printed form; an operand under a quantifier keeps its outer group: PRC-2; entries of a grapheme are only mapped element-wise: CHR-1; escaping descends as deep as the printer: ESC-3; own text of a unit with nested repetitions is never printed (it is not escaped): ESC-4; no memo table with a lossy key: MEMO-1), the label guard of the minimiser, and trie-edge "
              "immutability during insertion (today violated: known finding). Language equality with/without the option is not decided.",
         design_ref="DESIGN.md §4 C05",
         note=TRUST + "TRI-1 is a genuine defect recorded as a known finding (no small repair).",
